@@ -1,5 +1,7 @@
 //! C09 leg `session` (E-MOCK): what only the session sets. For every session-level entry point
-//! (query_unpaged / query_single_page / query_iter / execute_unpaged / execute_single_page / execute_iter / batch)
+//! (query_unpaged / query_single_page / query_iter / execute_unpaged / execute_single_page / execute_iter / batch) and
+//! every CachingSession entry point (execute_unpaged / execute_single_page / execute_iter / batch / prepare_batch followed
+//! by Session::batch; cache capacity 4 < 12 statement texts so hits and misses alternate)
 //! and EVERY combination of the statement-level settings (page size, explicit timestamp, consistency source,
 //! serial consistency, tracing, idempotence, use_cached_result_metadata, value shape, statement kind) under every
 //! session configuration (metadata-id extension on/off x timestamp generator configured or not x default / custom
@@ -12,6 +14,7 @@ use h_mock::sess::{self, RecordingGen};
 use mockcluster::wire::{BatchStmt, ColType, Opcode, QueryParams, Request, Response, Val, col, val};
 use mockcluster::{KeyspaceSpec, LogEntry, LogKind, MockCluster, NodeSpec, Script, TableSpec, paginate, prepared_id};
 use scylla::client::execution_profile::{ExecutionProfile, ExecutionProfileHandle};
+use scylla::client::caching_session::{CachingSession, CachingSessionBuilder};
 use scylla::client::session::Session;
 use scylla::client::session_builder::SessionBuilder;
 use scylla::response::{PagingState, PagingStateResponse};
@@ -42,9 +45,27 @@ enum Api {
     ExecSinglePage,
     ExecIter,
     Batch,
+    CacheExecUnpaged,
+    CacheExecSinglePage,
+    CacheExecIter,
+    CacheBatch,
+    CachePrepareBatch,
 }
 impl Api {
-    const ALL: [Api; 7] = [Api::QueryUnpaged, Api::QuerySinglePage, Api::QueryIter, Api::ExecUnpaged, Api::ExecSinglePage, Api::ExecIter, Api::Batch];
+    const ALL: [Api; 12] = [
+        Api::QueryUnpaged,
+        Api::QuerySinglePage,
+        Api::QueryIter,
+        Api::ExecUnpaged,
+        Api::ExecSinglePage,
+        Api::ExecIter,
+        Api::Batch,
+        Api::CacheExecUnpaged,
+        Api::CacheExecSinglePage,
+        Api::CacheExecIter,
+        Api::CacheBatch,
+        Api::CachePrepareBatch,
+    ];
     fn name(self) -> &'static str {
         match self {
             Api::QueryUnpaged => "query_unpaged",
@@ -54,6 +75,11 @@ impl Api {
             Api::ExecSinglePage => "execute_single_page",
             Api::ExecIter => "execute_iter",
             Api::Batch => "batch",
+            Api::CacheExecUnpaged => "caching.execute_unpaged",
+            Api::CacheExecSinglePage => "caching.execute_single_page",
+            Api::CacheExecIter => "caching.execute_iter",
+            Api::CacheBatch => "caching.batch",
+            Api::CachePrepareBatch => "caching.prepare_batch+batch",
         }
     }
     fn from_name(s: &str) -> Api {
@@ -65,11 +91,21 @@ impl Api {
     fn is_exec(self) -> bool {
         matches!(self, Api::ExecUnpaged | Api::ExecSinglePage | Api::ExecIter)
     }
+    /// CachingSession entry points taking an unprepared Statement (prepared through the cache, then EXECUTEd)
+    fn is_cache_exec(self) -> bool {
+        matches!(self, Api::CacheExecUnpaged | Api::CacheExecSinglePage | Api::CacheExecIter)
+    }
+    fn is_cache(self) -> bool {
+        self.is_cache_exec() || matches!(self, Api::CacheBatch | Api::CachePrepareBatch)
+    }
+    fn is_batch(self) -> bool {
+        matches!(self, Api::Batch | Api::CacheBatch | Api::CachePrepareBatch)
+    }
     fn is_iter(self) -> bool {
-        matches!(self, Api::QueryIter | Api::ExecIter)
+        matches!(self, Api::QueryIter | Api::ExecIter | Api::CacheExecIter)
     }
     fn is_unpaged(self) -> bool {
-        matches!(self, Api::QueryUnpaged | Api::ExecUnpaged | Api::Batch)
+        matches!(self, Api::QueryUnpaged | Api::ExecUnpaged | Api::CacheExecUnpaged) || self.is_batch()
     }
 }
 
@@ -232,11 +268,11 @@ fn all_cases(cfg: SessCfg) -> Vec<Case> {
     let mut out = Vec::new();
     let mut n = 0u64;
     for api in Api::ALL {
-        let selects: &[bool] = if api == Api::Batch { &[false] } else if api.is_iter() { &[true] } else { &[true, false] };
-        let vals: &[u8] = if api == Api::Batch { &[0] } else { &[0, 1, 2, 3, 4] };
-        let pages: &[u8] = if api == Api::Batch { &[0] } else { &[0, 1, 2] };
-        let cacheds: &[bool] = if api.is_exec() { &[false, true] } else { &[false] };
-        let shapes: Vec<(u8, u8)> = if api == Api::Batch { (0..3).flat_map(|t| (0..BATCH_MIXES).map(move |m| (t, m))).collect() } else { vec![(0, 0)] };
+        let selects: &[bool] = if api.is_batch() { &[false] } else if api.is_iter() { &[true] } else { &[true, false] };
+        let vals: &[u8] = if api.is_batch() { &[0] } else { &[0, 1, 2, 3, 4] };
+        let pages: &[u8] = if api.is_batch() { &[0] } else { &[0, 1, 2] };
+        let cacheds: &[bool] = if api.is_exec() || api.is_cache_exec() { &[false, true] } else { &[false] };
+        let shapes: Vec<(u8, u8)> = if api.is_batch() { (0..3).flat_map(|t| (0..BATCH_MIXES).map(move |m| (t, m))).collect() } else { vec![(0, 0)] };
         for &select in selects {
             for &(btype, bmix) in &shapes {
                 for &vals in vals {
@@ -245,7 +281,9 @@ fn all_cases(cfg: SessCfg) -> Vec<Case> {
                             for cons in 0..4u8 {
                                 for serial in 0..4u8 {
                                     for tracing in [false, true] {
-                                        for idem in [false, true] {
+                                        // not on the wire: both values for the Session entry points, rotating for the CachingSession ones
+                                        let idems: &[bool] = if api.is_cache() { if (cons + serial) % 2 == 0 { &[false] } else { &[true] } } else { &[false, true] };
+                                        for &idem in idems {
                                             for &cached in cacheds {
                                                 for lwt in [false, true] {
                                                     out.push(Case { cfg, api, select, vals, page, ts, cons, serial, tracing, idem, cached, btype, bmix, lwt, n });
@@ -368,7 +406,10 @@ fn diff_ts(got: Option<i64>, exp: &TsExp, generated: &[i64]) -> Option<String> {
 struct Env {
     cfg: SessCfg,
     cluster: MockCluster,
-    session: Session,
+    session: Arc<Session>,
+    /// CachingSessions over the same Session: [use_cached_result_metadata = false, = true]; capacity 4 < 12 statement texts,
+    /// so both cache hits and misses (a PREPARE before the request) occur all the time
+    caching: [CachingSession; 2],
     generator: Option<Arc<RecordingGen>>,
     handle: ExecutionProfileHandle,
     prepared: HashMap<&'static str, PreparedStatement>,
@@ -410,7 +451,8 @@ async fn setup(cfg: SessCfg) -> Env {
     if cfg.custom_profile {
         b = b.default_execution_profile_handle(ExecutionProfile::builder().consistency(Consistency::Two).serial_consistency(Some(SerialConsistency::Serial)).build().into_handle());
     }
-    let session = b.build().await.unwrap_or_else(|e| vcore::machinery_error(&format!("session: {e}\n{}", cluster.dump_log())));
+    let session = Arc::new(b.build().await.unwrap_or_else(|e| vcore::machinery_error(&format!("session: {e}\n{}", cluster.dump_log()))));
+    let caching = [false, true].map(|m| CachingSessionBuilder::new_shared(session.clone()).max_capacity(4).use_cached_result_metadata(m).build());
     cluster
         .wait_conns("pool connection ready", mockcluster::DEADLINE, |cs| cs.iter().any(|c| c.open && c.ready && c.registered.is_empty()).then_some(()))
         .await
@@ -427,7 +469,7 @@ async fn setup(cfg: SessCfg) -> Env {
             prepared.insert(t, ps);
         }
     }
-    let env = Env { cfg, cluster, session, generator, handle, prepared, node_meta_id: Default::default() };
+    let env = Env { cfg, cluster, session, caching, generator, handle, prepared, node_meta_id: Default::default() };
     let all = env.cluster.log();
     env.learn_meta_ids(&all);
     env
@@ -521,7 +563,29 @@ async fn drive(env: &Env, c: &Case) -> Result<usize, String> {
                 }
             }
         }
-        Api::Batch => {
+        Api::CacheExecUnpaged | Api::CacheExecSinglePage | Api::CacheExecIter => {
+            let mut st = Statement::new(c.text());
+            if let Some(p) = c.page_size() {
+                st.set_page_size(p);
+            }
+            apply_common!(st, c, env);
+            let cs = &env.caching[c.cached as usize];
+            match c.api {
+                Api::CacheExecUnpaged => cs.execute_unpaged(st, vals).await.map(|_| 1).map_err(|e| e.to_string()),
+                Api::CacheExecSinglePage => {
+                    let (_, state) = cs.execute_single_page(st.clone(), &vals, PagingState::start()).await.map_err(|e| e.to_string())?;
+                    match state {
+                        PagingStateResponse::NoMorePages => Ok(1),
+                        PagingStateResponse::HasMorePages { state } => cs.execute_single_page(st, &vals, state).await.map(|_| 2).map_err(|e| e.to_string()),
+                    }
+                }
+                _ => {
+                    let pager = cs.execute_iter(st, vals).await.map_err(|e| e.to_string())?;
+                    drain(pager).await
+                }
+            }
+        }
+        Api::Batch | Api::CacheBatch | Api::CachePrepareBatch => {
             let mut batch = Batch::new(match c.btype {
                 0 => BatchType::Logged,
                 1 => BatchType::Unlogged,
@@ -543,7 +607,14 @@ async fn drive(env: &Env, c: &Case) -> Result<usize, String> {
                 values.push(caller_values(shape, c.a().wrapping_add(i as i32), c.b()));
             }
             apply_common!(batch, c, env);
-            env.session.batch(&batch, values).await.map(|_| 1).map_err(|e| e.to_string())
+            match c.api {
+                Api::Batch => env.session.batch(&batch, values).await.map(|_| 1).map_err(|e| e.to_string()),
+                Api::CacheBatch => env.caching[0].batch(&batch, values).await.map(|_| 1).map_err(|e| e.to_string()),
+                _ => {
+                    let prepared = env.caching[0].prepare_batch(&batch).await.map_err(|e| e.to_string())?;
+                    env.session.batch(&prepared, values).await.map(|_| 1).map_err(|e| e.to_string())
+                }
+            }
         }
     }
 }
@@ -590,16 +661,29 @@ async fn check_one(r: &Report, env: &Env, c: &Case) {
     if c.api.is_query() && c.vals != 0 {
         must_prepare.insert(c.text());
     }
-    if c.api == Api::Batch {
+    // ... and which MAY be (CachingSession: a PREPARE appears on a cache miss only)
+    let mut may_prepare: BTreeSet<&'static str> = BTreeSet::new();
+    if c.api.is_cache_exec() {
+        may_prepare.insert(c.text());
+    }
+    if c.api.is_batch() {
         for (kind, shape) in batch_mix(c.bmix) {
-            if kind == 'U' && shape != 0 {
-                must_prepare.insert(stmt_text(false, if shape == 1 { 1 } else { 2 }, c.lwt));
+            let text = stmt_text(false, if shape == 0 { 0 } else if shape == 1 { 1 } else { 2 }, c.lwt);
+            if kind == 'U' && c.api.is_cache() {
+                may_prepare.insert(text);
+            } else if kind == 'U' && shape != 0 {
+                must_prepare.insert(text);
             }
         }
     }
     let prepared_texts: BTreeSet<&str> = prepares.iter().filter_map(|e| e.frame().and_then(|f| f.request.text())).collect();
-    if prepared_texts != must_prepare.iter().copied().collect::<BTreeSet<&str>>() {
-        return viol(r, c, "prepare-text", format!("PREPARE frames for {prepared_texts:?}, the caller's statements needing preparation are {must_prepare:?}"), &frames);
+    let must: BTreeSet<&str> = must_prepare.iter().copied().collect();
+    let allowed: BTreeSet<&str> = must_prepare.iter().chain(may_prepare.iter()).copied().collect();
+    if !prepared_texts.is_superset(&must) || !prepared_texts.is_subset(&allowed) {
+        return viol(r, c, "prepare-text", format!("PREPARE frames for {prepared_texts:?}; the caller's statements needing preparation are {must_prepare:?} (through the cache, on a miss: {may_prepare:?})"), &frames);
+    }
+    if !prepares.is_empty() && c.api.is_cache() {
+        r.counters.add("caching_session_calls_with_cache_miss", 1);
     }
     r.counters.add("prepare_frames_checked", prepares.len() as u64);
     if let (Some(p), Some(q)) = (prepares.first(), requests.first()) {
@@ -650,11 +734,11 @@ async fn check_one(r: &Report, env: &Env, c: &Case) {
                     seen_ts.insert(t);
                 }
             }
-            (Request::Execute { id, result_metadata_id, params }, a) if a.is_exec() || (a.is_query() && c.vals != 0) => {
+            (Request::Execute { id, result_metadata_id, params }, a) if a.is_exec() || a.is_cache_exec() || (a.is_query() && c.vals != 0) => {
                 if *id != prepared_id(c.text()) {
                     return viol(r, c, "prepared-id", format!("EXECUTE id {} is not the id the node assigned to {:?}", vcore::hex(id), c.text()), &frames);
                 }
-                let skip = c.select && (env.cfg.ext || (a.is_exec() && c.cached));
+                let skip = c.select && (env.cfg.ext || ((a.is_exec() || a.is_cache_exec()) && c.cached));
                 let want_meta: Option<Vec<u8>> = if !env.cfg.ext {
                     None
                 } else if skip {
@@ -676,7 +760,7 @@ async fn check_one(r: &Report, env: &Env, c: &Case) {
                     seen_ts.insert(t);
                 }
             }
-            (Request::Batch { kind, statements, consistency, flags, serial_consistency, timestamp }, Api::Batch) => {
+            (Request::Batch { kind, statements, consistency, flags, serial_consistency, timestamp }, a) if a.is_batch() => {
                 if *kind != c.btype {
                     return viol(r, c, "batch-type", format!("batch type {kind} instead of {}", c.btype), &frames);
                 }
@@ -686,7 +770,8 @@ async fn check_one(r: &Report, env: &Env, c: &Case) {
                     .map(|(i, (k, shape))| {
                         let text = stmt_text(false, if shape == 0 { 0 } else if shape == 1 { 1 } else { 2 }, c.lwt);
                         let values = wire_values(shape, c.a().wrapping_add(i as i32), c.b());
-                        if k == 'U' && shape == 0 { BatchStmt::Query { text: text.to_string(), values } } else { BatchStmt::Prepared { id: prepared_id(text), values } }
+                        // a CachingSession prepares every unprepared statement of the batch, with or without values
+                        if k == 'U' && shape == 0 && !c.api.is_cache() { BatchStmt::Query { text: text.to_string(), values } } else { BatchStmt::Prepared { id: prepared_id(text), values } }
                     })
                     .collect();
                 if *statements != want {
@@ -711,7 +796,7 @@ async fn check_one(r: &Report, env: &Env, c: &Case) {
             }
         }
     }
-    if exp.ts == TsExp::Generated && seen_ts.len() != requests.len() && c.api != Api::Batch {
+    if exp.ts == TsExp::Generated && seen_ts.len() != requests.len() && !c.api.is_batch() {
         return viol(r, c, "timestamp", format!("{} request frames share generated timestamps {seen_ts:?}", requests.len()), &frames);
     }
     if requests.len() > 1 {
@@ -727,7 +812,7 @@ fn nontrivial(c: &Case) -> bool {
     k += (c.ts || c.cfg.generator) as u32;
     k += c.tracing as u32;
     k += (c.vals != 0 || c.bmix > 1) as u32;
-    k += (c.select && (c.cfg.ext || c.cached) && (c.api.is_exec() || c.vals != 0)) as u32;
+    k += (c.select && (c.cfg.ext || c.cached) && (c.api.is_exec() || c.api.is_cache_exec() || c.vals != 0)) as u32;
     k >= 3
 }
 
